@@ -23,7 +23,8 @@ func c08(c *eng.Ctx, r *eng.Report) {
 		"R8.3 DecodeBytes returns nil only after the trailing-data test; R8.4 the only explicit panics reachable from the decode entry points are the reviewed programmer-error ones; " +
 		"R8.5/R8.6 the two tag parsers (Stream.readKind, raw.go readKind) keep the same case boundaries and the census of canonical-form guards (sentinel error, operator, constant) contains the reference set; " +
 		"R8.7 the encoder/decoder cache is keyed by the Go type together with its struct tags; R8.8 every function of decode.go that pulls a string payload from the stream itself (readFull/readByte) carries the single-byte canonical-form guard, header/size readers and Raw exempt by a reviewed table. " +
-		"Not decided: round-trip equality and uniqueness of encodings for all values; the encoder."
+		"R8.9 every comparison of a size with the short/long header boundary, in encoder and decoder alike, is equivalent to `size < 56`. " +
+		"Not decided: round-trip equality and uniqueness of encodings for all values; the rest of the encoder."
 	r.Assume = []string{"reflect and io.Reader behave as documented"}
 	c08Alloc(c, r)
 	c08Bounds(c, r)
@@ -32,6 +33,7 @@ func c08(c *eng.Ctx, r *eng.Report) {
 	c08Census(c, r)
 	c08CacheKey(c, r)
 	c08PayloadReaders(c, r)
+	c08ShortLongBoundary(c, r)
 }
 
 // payloadExempt: functions that pull bytes from the input without being the
@@ -579,4 +581,47 @@ func c08CacheKey(c *eng.Ctx, r *eng.Report) {
 		sort.Strings(names)
 		r.Check(strings.Join(names, ",") == "Type,tags", rule, "cache-key:typekey", "", "typekey = {Type, tags}", "typekey fields are "+strings.Join(names, ","))
 	}
+}
+
+// c08ShortLongBoundary: encoder and decoder agree that payloads up to 55 bytes
+// take the one-byte header. Every comparison of a size with 55/56/57 in the
+// package must be equivalent to `size < 56`; the sibling sites (headsize,
+// puthead, encodeStringHeader, listEnd, readKind, readSize) have to move
+// together or not at all.
+func c08ShortLongBoundary(c *eng.Ctx, r *eng.Report) {
+	const rule = "R8.9"
+	r.Min(rule, 6)
+	n := 0
+	for _, fn := range c.PkgFuncs(rlpPkg) {
+		if c.IsTestFunc(fn) {
+			continue
+		}
+		i := 0
+		for _, b := range fn.Blocks {
+			for _, in := range b.Instrs {
+				bo, ok := in.(*ssa.BinOp)
+				if !ok {
+					continue
+				}
+				switch bo.Op {
+				case token.LSS, token.LEQ, token.GTR, token.GEQ:
+				default:
+					continue
+				}
+				k, isK := eng.ConstInt(bo.Y)
+				if !isK || k < 54 || k > 57 {
+					continue
+				}
+				if bt, isB := bo.X.Type().Underlying().(*types.Basic); !isB || bt.Info()&types.IsInteger == 0 {
+					continue
+				}
+				n++
+				ok56 := (bo.Op == token.LSS && k == 56) || (bo.Op == token.LEQ && k == 55) || (bo.Op == token.GEQ && k == 56) || (bo.Op == token.GTR && k == 55)
+				key := fmt.Sprintf("boundary:%s#%d", strings.TrimPrefix(eng.FuncName(fn), "storage/rlp."), i)
+				i++
+				r.Check(ok56, rule, key, c.Pos(bo.Pos()), "short form iff size < 56", fmt.Sprintf("%s compares a size with `%s %d`, which is not the short/long boundary `< 56` used by its sibling sites: for a payload of exactly 55 (or 56) bytes the header size this site assumes differs from the header another site writes or accepts — the encoding gains or loses a byte and no longer decodes to the value", eng.FuncName(fn), bo.Op, k))
+			}
+		}
+	}
+	r.Check(n >= 6, rule, "boundary:sites", "", fmt.Sprintf("%d boundary comparisons", n), fmt.Sprintf("only %d comparisons with the 55/56 boundary found (headsize, puthead, encodeStringHeader, listEnd, both readKind, readSize expected)", n))
 }
